@@ -274,7 +274,7 @@ def search_model(ctx, label, spec, m, hits):
 # ------------------------------------------------------------------------------------------------
 #  run
 # ------------------------------------------------------------------------------------------------
-def run(ctx):
+def _run(ctx):
     quick = ctx.tier == 'quick'
     status = univ.generate(ctx)
     for name, err in status.items():
@@ -725,3 +725,16 @@ def check_kde(ctx, label, spec, m, vm, goals, wrap, solvers):
         goals.append({'term': f'kde_tab {rlist(up_vals[i])} {rlist(low_vals)} {rlist(W)}', 'y': float(F[i]), 'tol': 1e-12, 'unfolds': ['kde_tab'],
                       'tactic': 'cbv [kde_tab]; interval with (i_prec 120)',
                       'meta': {**base, 'what': 'cdf-weighted-sum', 'detail': f'x={xs[i]!r}', 'repro': rcdf}})
+
+
+def run(ctx):
+    """the check proper, then the history / edge-value oracle added after a missed seeded change (always)"""
+    from .. import extra_oracles
+    try:
+        _run(ctx)
+    finally:
+        try:
+            extra_oracles.univariate_refit_queries(ctx)
+        except Exception as ex:
+            ctx.obligation('oracle:extra:raised', False, 'correspondence', repr(ex))
+            ctx.violation('oracle:extra:raised:' + type(ex).__name__, 'extra oracle raised ' + repr(ex), {'repro': '# see tools/vf/extra_oracles.py'})
